@@ -222,6 +222,60 @@ Proof.
       * apply H2. auto.
 Qed.
 
+(** ** where the field lands: the key order of every written table *)
+Variable G : list text -> list text.
+Hypothesis g_keys : forall t1 fs, keys (g t1 fs) = G (keys fs).
+Hypothesis G_idem : forall ks, NoDup ks -> G (G ks) = G ks.
+
+Lemma gimpl_keys : forall s v t s' rt rv,
+  inv s -> lookup s t = Some rt -> lookup s v = Some rv ->
+  gimpl s v t = ROk s' ->
+  keys (fields_of s' v) = G (keys (fields_of s v)) /\
+  (forall x, 0 <= x < size s -> x <> v -> fields_of s' x = fields_of s x).
+Proof.
+  intros s v t s' rt rv I Lt Lv H.
+  destruct (gimpl_ok _ _ _ _ _ _ _ I Lt Lv eq_refl H) as [_ [E [_ [_ [t1 [_ [_ L']]]]]]].
+  split.
+  - unfold fields_of. rewrite L', Lv. simpl. apply g_keys.
+  - intros x B NE. unfold fields_of. destruct E as [_ [A _]]. rewrite A; auto.
+    simpl. intros [X | []]. congruence.
+Qed.
+
+Lemma each_gimpl_keys : forall vs s t s' rt,
+  inv s -> lookup s t = Some rt ->
+  (forall v, In v vs -> ref_ok (size s) v) ->
+  each (fun st v => gimpl st v t) s vs = ROk s' ->
+  forall x, 0 <= x < size s ->
+    (In x vs -> keys (fields_of s' x) = G (keys (fields_of s x))) /\
+    (~ In x vs -> fields_of s' x = fields_of s x).
+Proof.
+  induction vs as [| v vs IH]; simpl; intros s t s' rt I Lt V H x B.
+  - inversion H; subst. split; [contradiction | reflexivity].
+  - rdes H as s1 Q.
+    destruct (lookup_lt_some s v (V v (or_introl eq_refl))) as [rv Lv].
+    destruct (gimpl_keys _ _ _ _ _ _ I Lt Lv Q) as [K1 O1].
+    destruct (gimpl_ok _ _ _ _ _ _ _ I Lt Lv eq_refl Q) as [I1 [E1 _]].
+    pose proof (evo_size _ _ _ E1) as Z1.
+    destruct E1 as [_ [_ [E1c _]]]. destruct (E1c _ _ Lt) as [rt1 [Lt1 _]].
+    assert (V1 : forall v0, In v0 vs -> ref_ok (size s1) v0).
+    { intros. eapply ref_ok_mono; [| apply V; auto]. lia. }
+    assert (B1 : 0 <= x < size s1) by lia.
+    destruct (IH s1 t s' rt1 I1 Lt1 V1 H x B1) as [KA KB].
+    assert (ND : NoDup (keys (fields_of s x))).
+    { unfold fields_of. destruct (lookup s x) as [rx |] eqn:Lx; [| constructor].
+      destruct I as [W _]. destruct (wf_lookup _ _ _ W Lx) as [_ [_ [_ [_ E]]]]. exact E. }
+    split.
+    + intros [X | X].
+      * subst x. destruct (in_dec Z.eq_dec v vs) as [Y | Y].
+        -- rewrite (KA Y). rewrite K1. apply G_idem. exact ND.
+        -- rewrite (KB Y). exact K1.
+      * destruct (Z.eq_dec x v) as [Y | Y].
+        -- subst x. rewrite (KA X). rewrite K1. apply G_idem. exact ND.
+        -- rewrite (KA X). rewrite (O1 x B Y). reflexivity.
+    + intros NI. assert (x <> v) by (intros X; apply NI; left; auto).
+      rewrite KB by (intros X; apply NI; right; exact X). apply O1; auto.
+Qed.
+
 End Evo.
 
 (** * append_field and insert_field are instances *)
@@ -317,6 +371,29 @@ Proof.
     + subst. apply K2. auto.
     + apply H2. auto.
 Qed.
+Variable G : list text -> list text.
+Hypothesis g_keys : forall t1 fs, keys (g t1 fs) = G (keys fs).
+Hypothesis G_idem : forall ks, NoDup ks -> G (G ks) = G ks.
+
+Lemma gfield_keys : forall s c t s',
+  inv s -> evolvable s c t = true ->
+  (dor s1 <- gimpl k g pre s c t;
+   each (fun st v => gimpl k g pre st v t) s1 (variant_targets s c)) = ROk s' ->
+  forall x, 0 <= x < size s ->
+    (In x (c :: variant_targets s c) -> keys (fields_of s' x) = G (keys (fields_of s x))) /\
+    (~ In x (c :: variant_targets s c) -> fields_of s' x = fields_of s x).
+Proof.
+  intros s c t s' I EV H x B.
+  (* the class itself is the first of the loop *)
+  assert (H' : each (fun st v => gimpl k g pre st v t) s (c :: variant_targets s c) = ROk s').
+  { simpl. exact H. }
+  destruct (evolvable_lookup _ _ _ EV) as [r [rt [L Lt]]].
+  eapply (each_gimpl_keys k g g_ok g_has pre pre_cl pre_var G g_keys G_idem); eauto.
+  intros v [X | X].
+  - subst. eapply lookup_some; eauto.
+  - destruct I as [W _]. destruct (variant_targets_valid _ _ _ W X). auto.
+Qed.
+
 End Field.
 
 Lemma append_field_ok : forall s c k t s',
@@ -343,6 +420,61 @@ Proof.
   - intros. apply tassoc_od_insert_same. auto.
   - apply pre_insert_cl.
   - apply pre_insert_var.
+Qed.
+
+(** where append_field / insert_field put the name *)
+Lemma G_append_idem : forall k ks, G_append k (G_append k ks) = G_append k ks.
+Proof.
+  unfold G_append. simpl. intros. destruct (tmemk k ks) eqn:E.
+  - rewrite E. reflexivity.
+  - match goal with |- (if ?b then _ else _) = _ => destruct b eqn:Y end; [reflexivity |].
+    apply tmemk_false in Y. exfalso. apply Y. apply in_or_app. right. simpl. auto.
+Qed.
+
+Lemma remove_key_insert_at : forall n k l, ~ In k l -> remove_key k (insert_at n k l) = l.
+Proof.
+  induction n; destruct l; simpl; intros NI; try rewrite text_eqb_refl; auto.
+  destruct (text_eqb k t) eqn:E.
+  - apply text_eqb_eq in E. subst. exfalso. apply NI. auto.
+  - rewrite IHn; auto.
+Qed.
+
+Lemma G_insert_idem : forall i k ks, NoDup ks -> G_insert i k (G_insert i k ks) = G_insert i k ks.
+Proof.
+  unfold G_insert. intros i k ks ND. destruct (NoDup_remove_key k ks ND) as [_ NI].
+  unfold py_insert at 2. rewrite remove_key_insert_at by exact NI. reflexivity.
+Qed.
+
+Lemma append_field_keys : forall s c k t s',
+  inv s -> append_field s c k t = ROk s' ->
+  forall x, 0 <= x < size s ->
+    (In x (touched s (OAppend c k t)) -> keys (fields_of s' x) = G_append k (keys (fields_of s x))) /\
+    (~ In x (touched s (OAppend c k t)) -> fields_of s' x = fields_of s x).
+Proof.
+  unfold append_field. intros s c k t s' I H.
+  destruct (evolvable s c t) eqn:EV; simpl in H; try discriminate.
+  apply (gfield_keys k (fun t1 fs => od_set k t1 fs)) with (pre := fun _ s1 => s1) (t := t); auto.
+  - intros. apply cls_ok_od_set; auto.
+  - intros. apply tassoc_od_set_same.
+  - intros. unfold G_append. simpl. apply keys_od_set.
+  - intros. apply G_append_idem.
+Qed.
+
+Lemma insert_field_keys : forall s c i k t s',
+  inv s -> insert_field s c i k t = ROk s' ->
+  forall x, 0 <= x < size s ->
+    (In x (touched s (OInsert c i k t)) -> keys (fields_of s' x) = G_insert i k (keys (fields_of s x))) /\
+    (~ In x (touched s (OInsert c i k t)) -> fields_of s' x = fields_of s x).
+Proof.
+  unfold insert_field. intros s c i k t s' I H.
+  destruct (evolvable s c t) eqn:EV; simpl in H; try discriminate.
+  apply (gfield_keys k (fun t1 fs => od_insert i k t1 fs)) with (pre := pre_insert k) (t := t); auto.
+  - intros. apply cls_ok_od_insert; auto.
+  - intros. apply tassoc_od_insert_same. auto.
+  - apply pre_insert_cl.
+  - apply pre_insert_var.
+  - intros. apply keys_od_insert.
+  - intros. apply G_insert_idem. auto.
 Qed.
 
 (** * any step keeps the invariants *)
